@@ -14,10 +14,56 @@ Open Scope string_scope.
       \/ two variants of one generated enum have the same P(name)
       \/ two generated enums anywhere in the device have the same P(name)
       \/ some ref has no object OF THE OVERRIDE'S KIND whose P(name) equals P(target)
-         (missing target, target of another kind, target that is a buffer or a ref).
+         (missing target, target of another kind, target that is a buffer or a ref)
+      [the five NAMING reasons of the property text: C14_spec_reject_names]
+      \/ some block ref r is a direct child of a block p and its target t instantiates p in zero or more steps,
+         where a block instantiates its direct sub blocks and the targets of its direct block refs (names compared
+         through P): the ref lies inside the block it refers to, directly or through sub blocks / other block
+         refs [C14_spec_recursive_ref].  This last clause is a STRUCTURAL reason, not one of the naming reasons the
+         property text lists: such a definition describes an infinitely deep device and was D11 (accepted, then
+         stack overflow) until /repo df1ac90 made refs_validated end with ensure_no_recursive_block_refs.
       Identity in the code is (name, cfg) — note (ii) of DESIGN.md section 6 — hence "cfg-free". *)
-Theorem C14_accept_iff : forall d, cfg_free d -> (name_ref_check d = false <-> C14_spec_reject d).
+Theorem C14_accept_iff : forall d, cfg_free d ->
+  (name_ref_check d = false <-> C14_spec_reject_names d \/ C14_spec_recursive_ref d).
 Proof. exact accept_iff. Qed.
+
+(* HISTORICAL (refs_validated before /repo df1ac90): the naming reasons alone *)
+Theorem C14_accept_iff_before_d11_repair : forall d, cfg_free d ->
+  (name_ref_check_before_d11_repair d = false <-> C14_spec_reject_names d).
+Proof. exact accept_iff_before_d11_repair. Qed.
+
+(* the current validation only rejects more *)
+Theorem C14_repair_only_rejects_more : forall d,
+  name_ref_check d = true -> name_ref_check_before_d11_repair d = true.
+Proof. exact name_ref_check_weaker. Qed.
+
+(* ---------------------------------------------------------------------------------------------
+   1b. ensure_no_recursive_block_refs (model: recursive_block_refs = a stack-based walk with fuel over the
+       "instantiates" edges, one walk per block ref that has an enclosing block, first hit reported).
+       recursive_block_ref dev is written from the description of the repair, without the worklist:
+         exists a block ref r, direct child of a block p, target t, with  t instantiates* p. *)
+(* the fuel of the walk (number of edges + 2) never runs out *)
+Theorem C14_recursive_check_total : forall d, exists v, recursive_block_refs d = Ok v.
+Proof. exact recursive_check_total. Qed.
+
+(* rejects with ref_recursive iff the specification holds *)
+Theorem C14_recursive_check_iff : forall d,
+  (exists r t, recursive_block_refs d = Ok (Some (mk_err "ref_recursive" [r; t]))) <-> recursive_block_ref (d_objects d).
+Proof. exact recursive_check_iff. Qed.
+
+Theorem C14_recursive_check_accepts_iff : forall d,
+  recursive_block_refs d = Ok None <-> ~ recursive_block_ref (d_objects d).
+Proof. exact recursive_check_none. Qed.
+
+(* the names in the message are those of a recursive site: ref r in block p with target t, t instantiates* p *)
+Theorem C14_recursive_check_reports_a_site : forall d e, recursive_block_refs d = Ok (Some e) ->
+  exists r p t, e = mk_err "ref_recursive" [r; t] /\ recursive_site (preorder_objects (d_objects d)) r p t.
+Proof. exact recursive_check_some. Qed.
+
+(* the specification on the tree the user wrote (names through P) = recursive_block_ref of the normalised tree *)
+Theorem C14_recursive_spec_normalised : forall d,
+  C14_spec_recursive_ref d <-> recursive_block_ref (d_objects (names_normalized d)).
+Proof. exact spec_recursive_norm. Qed.
 
 (* ---------------------------------------------------------------------------------------------
    2. Resolution.  search_object is a depth-first search returning the first match in pre-order;
@@ -43,10 +89,14 @@ Theorem C14_accepted_refs_resolve : forall d, cfg_free d -> name_ref_check d = t
 Proof. exact accepted_refs_resolve. Qed.
 
 (* ---------------------------------------------------------------------------------------------
-   3. Ref lowering (lir_transform::get_method) with fuel.  When every ref resolves, some fuel
+   3. Expansion of block refs (get_method / lower: lir_transform::get_method as it was before /repo 7e1bb11,
+      re-entering collect_into_blocks for the target of a block ref; the LIR pass addresses_non_overlapping
+      still expands blocks by name in this way) with fuel.  When every ref resolves, some fuel
       suffices iff the relation "block a contains, at any depth, a block ref to t" admits a rank
       that strictly decreases along it (= has no cycle); on a cycle NO fuel suffices.  The real code
-      has no bound: D11. *)
+      has no bound: this was D11.  Since /repo df1ac90 an ACCEPTED definition is acyclic
+      (C14_accepted_is_acyclic), so its expansion terminates (C14_accepted_expansion_terminates); since
+      7e1bb11 the lowering itself (get_method_accessor) does not expand block refs at all. *)
 Theorem C14_lowering_terminates_iff_acyclic : forall dev,
   refs_resolve dev -> (lowering_terminates dev <-> acyclic dev).
 Proof. exact lowering_terminates_iff_acyclic. Qed.
@@ -59,6 +109,24 @@ Theorem C14_cycle_diverges : forall dev, refs_resolve dev -> cyclic dev ->
   forall fuel root, lower fuel root dev = Fail OutOfFuel.
 Proof. exact cycle_diverges. Qed.
 
+(* a rank exists iff there is no cycle (finite carrier: pigeonhole over the object names) *)
+Theorem C14_acyclic_iff_no_cycle : forall dev, acyclic dev <-> ~ cyclic dev.
+Proof. exact acyclic_iff_no_cycle. Qed.
+
+(* a cycle of the nesting relation contains a recursive block ref in the sense of the repaired pass *)
+Theorem C14_cycle_is_recursive_ref : forall dev, cyclic dev -> recursive_block_ref dev.
+Proof. exact cyclic_is_recursive. Qed.
+
+(* KEY (after the repair of D11): whatever the name / reference validation accepts is acyclic ... *)
+Theorem C14_accepted_is_acyclic : forall d,
+  name_ref_check d = true -> acyclic (d_objects (names_normalized d)).
+Proof. exact accepted_is_acyclic. Qed.
+
+(* ... hence the expansion of its block refs terminates: "every accepted definition can be lowered" *)
+Theorem C14_accepted_expansion_terminates : forall d, cfg_free d -> name_ref_check d = true ->
+  lowering_terminates (d_objects (names_normalized d)).
+Proof. exact accepted_expansion_terminates. Qed.
+
 Definition ex_cfg : config :=
   {| g_default_register_access := RW; g_default_field_access := RW; g_default_buffer_access := RW;
      g_default_byte_order := None; g_default_bit_order := BiLSB0; g_register_address_type := Some IU8;
@@ -68,11 +136,13 @@ Definition ex_cfg : config :=
      g_defmt_feature := None |}.
 Definition dev (objs : list object) : device := {| d_config := ex_cfg; d_objects := objs |}.
 
-(* D11: `block A { ref B = block A { const ADDRESS_OFFSET = 1; } }` passes every name / reference
-   check and the device-name test, and its lowering exhausts every fuel.  This refutes "every accepted
-   definition can be lowered". *)
+(* HISTORICAL — D11, about the validation as it was BEFORE /repo df1ac90 (name_ref_check_before_d11_repair):
+   `block A { ref B = block A { const ADDRESS_OFFSET = 1; } }` passed every name / reference check and the
+   device-name test, and its expansion exhausts every fuel.  This refuted "every accepted definition can be
+   lowered" for the unrepaired generator.  For the current validation the statement is TRUE:
+   C14_accepted_expansion_terminates; the witness is now rejected (C14_d11_witness_now_rejected). *)
 Theorem C14_self_ref_refuted :
-  exists d, cfg_free d /\ name_ref_check d = true /\ device_name_check "Dev" = None /\
+  exists d, cfg_free d /\ name_ref_check_before_d11_repair d = true /\ device_name_check "Dev" = None /\
             forall fuel root, lower fuel root (d_objects (names_normalized d)) = Fail OutOfFuel.
 Proof.
   exists (dev d11_objects). split; [|split; [|split]].
@@ -147,30 +217,84 @@ Definition buf (n : string) : object := OBuffer {| bf_cfg := None; bf_name := n;
 Example C14_accepts_deep_later_target :
   let d := dev [rref "alias" "MY-REG"; blk "outer" [blk "inner" [reg "my_reg" [fld "a_b" (enm "kind" ["on"; "off"])]]]] in
   cfg_free d /\ name_ref_check d = true /\
-  c14_result "Dev" d = "ok:Dev(alias>MyReg,outer>Outer) Outer(inner>Inner) Inner(my_reg>MyReg)".
+  c14_result_repaired "Dev" d = "ok:Dev(alias>MyReg,outer>Outer) Outer(inner>Inner) Inner(my_reg>MyReg)".
 Proof. vm_compute. split; [repeat constructor|split; reflexivity]. Qed.
 
-(* each rejection class of the theorem, produced by spellings that collide only after normalisation *)
+(* each rejection class of the theorem, produced by spellings that collide only after normalisation; the CURRENT
+   pipeline (c14_result_repaired: refs_validated first and ending with the recursion check, block refs lowered to an
+   accessor only) *)
 Example C14_rejections :
-  c14_result "Dev" (dev [reg "my_reg" []; blk "b" [blk "c" [buf "MyReg"]]]) = "error:dup_object:MyReg" /\
-  c14_result "Dev" (dev [reg "r" []; rref "R" "r"]) = "error:dup_object:R" /\
-  c14_result "Dev" (dev [reg "r" [fld "aB" None; fld "a_b" None]]) = "error:dup_field:R|a_b" /\
-  c14_result "Dev" (dev [reg "r" [fld "a" (enm "e" ["x_y"; "xY"])]]) = "error:dup_variant:XY|E|R|a" /\
-  c14_result "Dev" (dev [reg "r" [fld "a" (enm "my_e" ["x"])]; blk "b" [reg "q" [fld "a" (enm "MyE" ["x"])]]])
+  c14_result_repaired "Dev" (dev [reg "my_reg" []; blk "b" [blk "c" [buf "MyReg"]]]) = "error:dup_object:MyReg" /\
+  c14_result_repaired "Dev" (dev [reg "r" []; rref "R" "r"]) = "error:dup_object:R" /\
+  c14_result_repaired "Dev" (dev [reg "r" [fld "aB" None; fld "a_b" None]]) = "error:dup_field:R|a_b" /\
+  c14_result_repaired "Dev" (dev [reg "r" [fld "a" (enm "e" ["x_y"; "xY"])]]) = "error:dup_variant:XY|E|R|a" /\
+  c14_result_repaired "Dev" (dev [reg "r" [fld "a" (enm "my_e" ["x"])]; blk "b" [reg "q" [fld "a" (enm "MyE" ["x"])]]])
     = "error:dup_enum:MyE|Q|a" /\
-  c14_result "Dev" (dev [reg "r" []; ORef None "x" (OvRegister "nope" None (Some 9%Z) false None None)])
+  c14_result_repaired "Dev" (dev [reg "r" []; ORef None "x" (OvRegister "nope" None (Some 9%Z) false None None)])
     = "oneof:ref_unknown:Register|X|Nope" /\
-  c14_result "Dev" (dev [buf "r"; ORef None "x" (OvRegister "r" None (Some 9%Z) false None None)])
+  c14_result_repaired "Dev" (dev [buf "r"; ORef None "x" (OvRegister "r" None (Some 9%Z) false None None)])
     = "oneof:ref_unknown:Register|X|R" /\
-  c14_result "Dev" (dev [reg "r" []; ORef None "x" (OvCommand "r" (Some 9%Z) false None)])
+  c14_result_repaired "Dev" (dev [reg "r" []; ORef None "x" (OvCommand "r" (Some 9%Z) false None)])
     = "oneof:ref_unknown:Command|X|R" /\
-  c14_result "my_dev" (dev [reg "r" []]) = "error:device_name:MyDev" /\
+  c14_result_repaired "my_dev" (dev [reg "r" []]) = "error:device_name:MyDev" /\
+  c14_result_repaired "Dev" (dev [reg "r" []; ORef None "x" (OvRegister "nope" None (Some 9%Z) false (Some (RInt 0%Z)) None)])
+    = "oneof:ref_unknown:Register|X|Nope" /\
+  (* recursive block refs: direct; through a second block ref; in a sub block of the target; three-cycle; the refs of a
+     block are examined before the refs of its sub blocks (x is reported, y comes first in pre-order) *)
+  c14_result_repaired "Dev" (dev [blk "A" [bref "B" "a"]]) = "error:ref_recursive:B|A" /\
+  c14_result_repaired "Dev" (dev [blk "A" [bref "B" "C"]; blk "C" [bref "D" "A"]]) = "error:ref_recursive:B|C" /\
+  c14_result_repaired "Dev" (dev [blk "A" [blk "S" [bref "B" "A"]]]) = "error:ref_recursive:B|A" /\
+  c14_result_repaired "Dev" (dev [blk "A" [bref "x" "B"]; blk "B" [bref "y" "C"]; blk "C" [bref "z" "A"]])
+    = "error:ref_recursive:X|B" /\
+  c14_result_repaired "Dev" (dev [blk "A" [blk "S" [bref "y" "S"]; bref "x" "A"]]) = "error:ref_recursive:X|A" /\
+  (* legal: ref to a sibling (the struct of C is emitted once: D9 repaired); diamond *)
+  c14_result_repaired "Dev" (dev [blk "A" [bref "B" "C"]; blk "C" [reg "r" []]]) = "ok:Dev(a>A,c>C) A(b>C) C(r>R)" /\
+  c14_result_repaired "Dev" (dev [blk "D" []; blk "B" [bref "x" "D"]; blk "C" [bref "y" "D"]; blk "A" [bref "p" "B"; bref "q" "C"]])
+    = "ok:Dev(d>D,b>B,c>C,a>A) D() B(x>D) C(y>D) A(p>B,q>C)".
+Proof. vm_compute. repeat split. Qed.
+
+(* HISTORICAL result strings (c14_result: pass order and lowering of the unrepaired tree): the D14 panic, the D11
+   divergence (direct and through a second block ref), the duplicate struct of D9 *)
+Example C14_historical_results :
   c14_result "Dev" (dev [reg "r" []; ORef None "x" (OvRegister "nope" None (Some 9%Z) false (Some (RInt 0%Z)) None)])
     = "panic:reset_ref_existance" /\
   c14_result "Dev" (dev [blk "A" [bref "B" "A"]]) = "abort:unbounded_ref_lowering" /\
   c14_result "Dev" (dev [blk "A" [bref "B" "C"]; blk "C" [bref "D" "A"]]) = "abort:unbounded_ref_lowering" /\
   c14_result "Dev" (dev [blk "A" [bref "B" "C"]; blk "C" [reg "r" []]]) = "ok:Dev(a>A,c>C) A(b>C) C(r>R) C(r>R)".
 Proof. vm_compute. repeat split. Qed.
+
+(* the D11 witness is rejected by the current model with ref_recursive (ref B, target A) and lies in the reject
+   class of C14_accept_iff through the structural clause only *)
+Example C14_d11_witness_now_rejected :
+  let d := dev d11_objects in
+  cfg_free d /\ name_ref_check d = false /\ name_ref_check_before_d11_repair d = true /\
+  recursive_block_refs (names_normalized d) = Ok (Some (mk_err "ref_recursive" ["B"; "A"])) /\
+  c14_result_repaired "Dev" d = "error:ref_recursive:B|A" /\
+  C14_spec_recursive_ref d /\ ~ C14_spec_reject_names d.
+Proof.
+  assert (Hf : cfg_free (dev d11_objects)) by (unfold cfg_free; vm_compute; repeat constructor).
+  cbv zeta. split; [exact Hf|]. split; [vm_compute; reflexivity|]. split; [vm_compute; reflexivity|].
+  split; [vm_compute; reflexivity|]. split; [vm_compute; reflexivity|]. split.
+  - apply C14_recursive_spec_normalised. apply C14_recursive_check_iff. exists "B", "A". vm_compute. reflexivity.
+  - intros H. apply (C14_accept_iff_before_d11_repair _ Hf) in H. vm_compute in H. discriminate.
+Qed.
+
+(* a legal chain of block refs — A; B { ref to A }; ref to B at the root — is accepted, is acyclic, and is lowered to
+   accessors only *)
+Example C14_legal_ref_chain_accepted :
+  let d := dev [blk "A" [reg "r" []]; blk "B" [bref "x" "a"]; bref "y" "b"] in
+  cfg_free d /\ name_ref_check d = true /\ recursive_block_refs (names_normalized d) = Ok None /\
+  acyclic (d_objects (names_normalized d)) /\ lowering_terminates (d_objects (names_normalized d)) /\
+  c14_result_repaired "Dev" d = "ok:Dev(a>A,b>B,y>B) A(r>R) B(x>A)".
+Proof.
+  assert (Hf : cfg_free (dev [blk "A" [reg "r" []]; blk "B" [bref "x" "a"]; bref "y" "b"]))
+    by (unfold cfg_free; vm_compute; repeat constructor).
+  assert (Hc : name_ref_check (dev [blk "A" [reg "r" []]; blk "B" [bref "x" "a"]; bref "y" "b"]) = true)
+    by (vm_compute; reflexivity).
+  cbv zeta. split; [exact Hf|]. split; [exact Hc|]. split; [vm_compute; reflexivity|].
+  split; [exact (C14_accepted_is_acyclic _ Hc)|]. split; [exact (C14_accepted_expansion_terminates _ Hf Hc)|].
+  vm_compute. reflexivity.
+Qed.
 
 (* the hypotheses of the lowering theorems are met by a real cycle / a real rank *)
 Example C14_cycle_example : cyclic d11_objects /\ refs_resolve d11_objects.
@@ -199,6 +323,17 @@ Example C14_pascal_fixed_example : to_pascal_default "RegB2Cd" = "RegB2Cd".
 Proof. apply C14_pascal_idempotent_partial; vm_compute; repeat constructor. Qed.
 
 Print Assumptions C14_accept_iff.
+Print Assumptions C14_accept_iff_before_d11_repair.
+Print Assumptions C14_repair_only_rejects_more.
+Print Assumptions C14_recursive_check_total.
+Print Assumptions C14_recursive_check_iff.
+Print Assumptions C14_recursive_check_accepts_iff.
+Print Assumptions C14_recursive_check_reports_a_site.
+Print Assumptions C14_recursive_spec_normalised.
+Print Assumptions C14_acyclic_iff_no_cycle.
+Print Assumptions C14_cycle_is_recursive_ref.
+Print Assumptions C14_accepted_is_acyclic.
+Print Assumptions C14_accepted_expansion_terminates.
 Print Assumptions C14_search_is_first_preorder_match.
 Print Assumptions C14_search_finds_declared.
 Print Assumptions C14_accepted_refs_resolve.
